@@ -206,12 +206,22 @@ func HTMLDoc(r *rand.Rand, o HTMLOpts) (doc string, toks []XTok) {
 				// escaped comment; a <script>…</script> pair inside it does not end the element
 				sb2.WriteString("<!--")
 				var sb3 strings.Builder
+				openScript := false
 				for j := r.Intn(4); j > 0; j-- {
 					switch r.Intn(4) {
 					case 0:
+						if openScript {
+							continue
+						}
 						sb3.WriteString("<" + randCase(r, "script") + Pick(r, []string{">", " >", " a=b>", "/>"}) + htmlChars(r, []string{"a", " ", "x<y", "\"", "</b>"}, r.Intn(4)) + "</" + randCase(r, "script") + Pick(r, []string{">", " >"}))
 					case 1:
 						sb3.WriteString(Pick(r, []string{"<scriptx>", "</scriptx>", "<script1", "</scrip>", "<b>", "- -", "->", "<!-"}))
+					case 2:
+						// a nested <script that is never closed: the double-escape state ends with the comment
+						if !openScript {
+							sb3.WriteString("<" + randCase(r, "script") + Pick(r, []string{">", " x>"}) + htmlChars(r, []string{"a", " ", "b"}, r.Intn(3)))
+							openScript = true
+						}
 					default:
 						sb3.WriteString(htmlChars(r, []string{"a", " ", "=", "'", "\n", "1"}, 1+r.Intn(4)))
 					}
